@@ -3,6 +3,8 @@ package main
 import (
 	"fmt"
 	"strings"
+
+	st "github.com/irismod/service/types"
 )
 
 // C04 — providers are slashed exactly when they fail a request.
@@ -17,8 +19,8 @@ func (oracleC04) Step(x *OCtx, t *Trans) []Violation {
 	// slash events per provider
 	evs := map[string]int{}
 	for _, e := range t.Res.Events {
-		if e.Type == "service_slash" {
-			evs[e.Attrs["provider"]]++
+		if e.Type == st.EventTypeServiceSlash {
+			evs[e.Attrs[st.AttributeKeyProvider]]++
 		}
 	}
 	wantEvs := map[string]int{}
